@@ -16,6 +16,13 @@
 (* (form, keybinding kinds, property/parameter shapes, extra flags).       *)
 (* Names are the fixed lower-case vocabulary the harness concretises with  *)
 (* (it randomises lexical case; the projection case-folds).                *)
+(*                                                                         *)
+(* Besides the requests there is the object case space ObjCases:           *)
+(* tocimxml() / tocimxmlstr() of CIMInstanceName, CIMClassName,            *)
+(* CIMInstance, CIMClass, CIMProperty, CIMParameter over path shape (none  *)
+(* / keys / ns / host / ns+host) x ignore_host / ignore_namespace /        *)
+(* ignore_path x reference values of every path shape (RefSpec) in         *)
+(* keybindings, properties and parameter values.                           *)
 (***************************************************************************)
 EXTENDS WireOps
 
